@@ -516,6 +516,20 @@ func genC06(d *Draw) Case {
 	if conc {
 		tags = append(tags, "concurrent-events")
 	}
+	if conc && d.Bool() {
+		// the events race with the arming of the gateway: each is delivered the moment a drawn number of
+		// alternatives (0..na) has reported that it listens, so it can meet alternatives whose flows exist but
+		// do not wait yet. An event may then legitimately be lost (nobody listened yet), so the first
+		// competitor is delivered once more when everything is at rest - only that one: the losers' events
+		// stay away, they must be withdrawn by the winner and not by their own event
+		tags = append(tags, "events-race-with-arming")
+		for i := range c.Events {
+			c.Events[i].Prompt = true
+			c.Events[i].WhenListening = d.N(na + 1)
+		}
+		c.Events = append(c.Events, EvPlan{Kind: c.Events[0].Kind, Ref: c.Events[0].Ref, Last: true})
+		evd = append(evd, c.Events[0].Ref+"(again, at rest)")
+	}
 	c.Prog = &Program{Defs: defs, Vars: map[string]any{}, Tags: tags, Desc: fmt.Sprintf("event gateway with %d alternatives %v, events %v concurrent=%v", na, alts[:na], evd, conc)}
 	c.Picks = drawPicks(d, 32)
 	c.Meta = map[string]int{"conc": b2i(conc), "na": na, "acts": acts}
@@ -610,6 +624,7 @@ func checkC06(cc Case, r *simrt.Result) *Outcome {
 	o.Tags = c.Prog.Tags
 	o.Nontrivial = r.Switches > 0
 	probe(o, "concurrent-delivery", c.Meta["conc"] == 1)
+	probe(o, "events-race-with-arming", hasTag(c.Prog.Tags, "events-race-with-arming"))
 	probe(o, "gateway-re-entered", c.Meta["acts"] > 1 && det > 1)
 	probe(o, "several-competitors-delivered", func() bool {
 		n := 0
@@ -663,18 +678,36 @@ func genC10(d *Draw) Case {
 	} else {
 		g.addNode(&Node{ID: "H", Kind: "task", Results: []string{"r_H"}})
 	}
+	// the host is entered twice through a loop: its boundary events have to react in the second activation too
+	loop := !two && !subHost && d.N(4) == 3
+	if loop {
+		g.addNode(&Node{ID: "LM", Kind: "xor"})
+		g.connect(defs, cur, "LM", nil, -1)
+		cur = "LM"
+	}
 	g.connect(defs, cur, "H", nil, -1)
 	if two {
 		g.connect(defs, "F", "H", nil, -1)
 	}
-	g.addNode(&Node{ID: "N", Kind: "task", Results: []string{"r_N"}})
-	g.connect(defs, "H", "N", nil, -1)
-	g.addNode(&Node{ID: "EN", Kind: "end"})
-	g.connect(defs, "N", "EN", nil, -1)
+	if loop {
+		g.addNode(&Node{ID: "N", Kind: "task", Results: []string{"r_N", "i_N"}, Counter: "i_N"})
+		g.connect(defs, "H", "N", nil, -1)
+		g.addNode(&Node{ID: "LS", Kind: "xor"})
+		g.connect(defs, "N", "LS", nil, -1)
+		g.connect(defs, "LS", "LM", &Cond{LtVar: "i_N", Lt: 2}, -1)
+		g.addNode(&Node{ID: "EN", Kind: "end"})
+		df := g.connect(defs, "LS", "EN", nil, -1)
+		g.Node("LS").Default = df.ID
+	} else {
+		g.addNode(&Node{ID: "N", Kind: "task", Results: []string{"r_N"}})
+		g.connect(defs, "H", "N", nil, -1)
+		g.addNode(&Node{ID: "EN", Kind: "end"})
+		g.connect(defs, "N", "EN", nil, -1)
+	}
 	nb := 1 + d.N(2)
 	tags := map[string]bool{}
 	for i := 1; i <= nb; i++ {
-		b := g.addNode(&Node{ID: fmt.Sprintf("B%d", i), Kind: "boundary", Attached: "H", Interrupting: d.N(3) == 2,
+		b := g.addNode(&Node{ID: fmt.Sprintf("B%d", i), Kind: "boundary", Attached: "H", Interrupting: !loop && d.N(3) == 2,
 			Events: []EventDef{{Kind: "signal", Ref: fmt.Sprintf("sB%d", i)}}})
 		x := g.addNode(&Node{ID: fmt.Sprintf("X%d", i), Kind: "task", Results: []string{fmt.Sprintf("r_X%d", i)}})
 		e := g.addNode(&Node{ID: fmt.Sprintf("EX%d", i), Kind: "end"})
@@ -716,6 +749,15 @@ func genC10(d *Draw) Case {
 			}
 		}
 	}
+	burst := len(c.Events) >= 2 && d.N(3) == 2
+	if burst {
+		// the whole plan back to back (sequentially or from separate goroutines), not one event per quiescent moment
+		c.Events[0].Burst = len(c.Events) - 1
+		c.Events[0].BurstConc = d.Bool()
+		for i := range c.Events {
+			c.Events[i].ThenAnswer = false
+		}
+	}
 	for i := 1; i <= nb; i++ {
 		n := fired[fmt.Sprintf("sB%d", i)]
 		if n == 0 {
@@ -732,9 +774,9 @@ func genC10(d *Draw) Case {
 	for t := range tags {
 		tl = append(tl, t)
 	}
-	c.Prog = &Program{Defs: defs, Vars: map[string]any{}, Tags: tl, Desc: fmt.Sprintf("host H (sub-process=%v) with %d boundary event(s), pre-task=%v two-tokens=%v, events %v", subHost, nb, pre, two, evd)}
+	c.Prog = &Program{Defs: defs, Vars: map[string]any{}, Tags: tl, Desc: fmt.Sprintf("host H (sub-process=%v) with %d boundary event(s), pre-task=%v two-tokens=%v loop=%v, events %v burst=%v", subHost, nb, pre, two, loop, evd, burst)}
 	c.Picks = drawPicks(d, 32)
-	c.Meta = map[string]int{"two": b2i(two), "nb": nb, "subhost": b2i(subHost)}
+	c.Meta = map[string]int{"two": b2i(two), "nb": nb, "subhost": b2i(subHost), "loop": b2i(loop), "burst": b2i(burst)}
 	return c
 }
 
@@ -756,6 +798,7 @@ func checkC10(cc Case, r *simrt.Result) *Outcome {
 	intrFired := false
 	hReq, hAns := 0, 0
 	partial := false
+	firedSecond := false
 	for _, ev := range c.env.L.E {
 		switch {
 		case ev.Kind == "t:task" && ev.A == "H":
@@ -765,7 +808,11 @@ func checkC10(cc Case, r *simrt.Result) *Outcome {
 			hAns++
 		case ev.Kind == "ev" && strings.HasPrefix(ev.B, "sB"):
 			if hAns >= 1 && hReq > hAns {
-				partial = true
+				if c.Meta["two"] == 1 {
+					partial = true // one of two tokens inside the host has left
+				} else {
+					firedSecond = true // (loop) the host waits a second time
+				}
 			}
 		}
 	}
@@ -806,6 +853,11 @@ func checkC10(cc Case, r *simrt.Result) *Outcome {
 	probe(o, "interrupting-fired", intrFired)
 	probe(o, "two-tokens-in-host", c.Meta["two"] == 1)
 	probe(o, "sub-process-host", c.Meta["subhost"] == 1)
+	probe(o, "host-re-entered-through-loop", c.Meta["loop"] == 1)
+	probe(o, "event-burst", c.Meta["burst"] == 1)
+	probe(o, "clean-stratum-run", len(o.Tags) == 0 && fired > 0)
+	probe(o, "clean-loop-run-fired-in-second-activation", len(o.Tags) == 0 && c.Meta["loop"] == 1 && firedSecond)
+	probe(o, "clean-burst-run-two-boundaries-fired", len(o.Tags) == 0 && c.Meta["burst"] == 1 && fired >= 2)
 	probe(o, "event-dropped-host-not-active", tg.M.Dropped > 0)
 	o.Sample = map[string]any{"program": c.Prog.Desc, "requests": tg.Requests, "tags": o.Tags}
 	return o
